@@ -43,7 +43,7 @@ Definition reduction_check (n : N) (G : list P) (morphs : list (list (list P) * 
   let deps := flat_map snd morphs in
   let comps := gen_components G in
   {| v_shape := forallb (fun m => star_ok (fst m)) morphs;
-     v_acct := Nat.eqb (length (dedup G)) (length verts + length (dedup deps)) && nodupP verts;
+     v_acct := Nat.leb (length verts + length (dedup deps)) (length (dedup G)) && Nat.leb (length (dedup G)) (length verts + length deps) && nodupP verts;
      v_deps := all_in_closure n verts deps;
      v_closure := closure_eq n G verts;
      v_comps := Nat.eqb (length morphs) (length comps) &&
@@ -60,4 +60,4 @@ Definition shape_acct_strs (G : list pstr) (morphs : list (list (list pstr) * li
   let verts := flat_map (fun m => concat (fst m)) ms in
   let deps := flat_map snd ms in
   (forallb (fun m => star_ok (fst m)) ms && Nat.eqb (length ms) (length (gen_components G')),
-   Nat.eqb (length (dedup G')) (length verts + length (dedup deps)) && nodupP verts).
+   Nat.leb (length verts + length (dedup deps)) (length (dedup G')) && Nat.leb (length (dedup G')) (length verts + length deps) && nodupP verts).
